@@ -190,6 +190,67 @@ def run_all(seed, tier):
         m = magpy.magnet.TriangularMesh(vertices=vv, faces=ff, polarization=(0, 0, 1), check_open="skip", check_disconnected="skip", check_selfintersecting="skip", reorient_faces=False)
         if not m.check_selfintersecting(mode="ignore"):
             bad.append((dict(solid="box pierced by a spike", order=order), "a spike piercing one face of a box is not reported as self-intersecting"))
+    # sparse vertex numbering: the faces use a subset of a larger vertex array (a sub-mesh that keeps its parent's numbering); the
+    # unused vertices are far away.  Status and field must equal those of the compactly numbered solid; get_open_edges on the
+    # sparse labels (closed and with faces deleted) must equal the edges of multiplicity != 2.
+    for sname, (v, f) in solids.items():
+        if signed_volume(v, f) < 0:
+            f = f[:, ::-1]
+        for var in range(2 if tier == "quick" else 10):
+            if var % 2 == 0:
+                # labels in arithmetic progressions whose steps are the sizes a flattened edge key could be built from
+                # (number of faces, of edges, of vertices): 0, 1, 1+L, 1+2L, ... in a random assignment to the vertices
+                L = (3 * len(f), len(f), len(v))[(var // 2) % 3]
+                ids = rng.permutation(np.array([0, 1] + [1 + k * L for k in range(1, len(v) - 1)]))
+                nbig = int(ids.max()) + 1 + int(rng.integers(0, 4))
+            else:
+                nbig = len(v) * int(rng.integers(3, 60))
+                ids = rng.permutation(rng.choice(nbig, size=len(v), replace=False))
+            vbig = rng.uniform(50, 60, size=(nbig, 3))
+            vbig[ids] = v
+            fs = ids[f]
+            case = dict(solid=sname, derived="sparse vertex numbering", variant=var, n_vertices=int(nbig))
+            n += 1
+            distinct += 1
+            import magpylib._src.fields.field_BH_triangularmesh as TMmod
+
+            for drop in (0, 1, 2):
+                fo = fs[drop:]
+                got = {tuple(sorted(e)) for e in np.asarray(TMmod.get_open_edges(fo)).tolist()}
+                if got != oracle_open_edges(fo):
+                    bad.append((case, f"get_open_edges on sparse vertex labels ({drop} faces deleted) differs from the edges of multiplicity != 2"))
+                    break
+            try:
+                m = magpy.magnet.TriangularMesh(vertices=vbig, faces=fs, polarization=(0.1, 0.2, 0.3), check_open="ignore", check_disconnected="ignore", check_selfintersecting="ignore")
+            except Exception as e:  # pylint: disable=broad-except
+                bad.append((case, f"constructor raised {type(e).__name__}: {str(e)[:80]}"))
+                continue
+            if m.check_open(mode="ignore") or m.check_disconnected(mode="ignore") or m.check_selfintersecting(mode="ignore"):
+                bad.append((case, f"a closed, connected, clean solid with sparse vertex numbering is reported open={m.status_open} disconnected={m.status_disconnected} selfintersecting={m.status_selfintersecting}"))
+            ref_mesh = magpy.magnet.TriangularMesh(vertices=v, faces=f, polarization=(0.1, 0.2, 0.3), reorient_faces=False)
+            if not np.allclose(magpy.getB(m, obs), magpy.getB(ref_mesh, obs), rtol=1e-8, atol=1e-12):
+                bad.append((case, "getB depends on the vertex numbering (sparse labels)"))
+    # very different face sizes: a small finely meshed closed body straddling a face of a large box far from that face's centroid
+    # (interpenetrating parts), and the same body well inside the box (clean, disconnected)
+    a = 5.0
+    Bv, Bf = box(2 * a, 2 * a, 2 * a, off=(-a, -a, -a))
+    pts = rng.normal(size=(60 if tier == "quick" else 150, 3))
+    pts = 0.5 * pts / np.linalg.norm(pts, axis=1, keepdims=True)
+    small = magpy.magnet.TriangularMesh.from_ConvexHull(points=pts, polarization=(0, 0, 1))
+    sv0, sf0 = np.array(small.vertices), np.array(small.faces)
+    cens = [(4.0, -4.0, 5.0), (4.0, 4.0, -5.0), (-5.0, 4.0, 3.5), (4.2, 5.0, -4.1)] + ([] if tier == "quick" else [tuple(np.where(np.arange(3) == ax, sg * 5.0, rng.uniform(3.5, 4.3, 3) * rng.choice([-1, 1], 3))) for ax in range(3) for sg in (-1, 1)])
+    for cen in cens + [(0.0, 0.0, 0.0)]:
+        vv_ = np.concatenate([Bv, sv0 + np.array(cen)])
+        ff_ = np.concatenate([Bf, sf0 + len(Bv)])
+        if rng.random() < 0.5:
+            ff_ = ff_[rng.permutation(len(ff_))]
+        n += 1
+        distinct += 1
+        m = magpy.magnet.TriangularMesh(vertices=vv_, faces=ff_, polarization=(0, 0, 1), check_open="skip", check_disconnected="skip", check_selfintersecting="skip", reorient_faces=False)
+        got = bool(m.check_selfintersecting(mode="ignore"))
+        exp = cen != (0.0, 0.0, 0.0)
+        if got != exp:
+            bad.append((dict(solid="large box + small fine body", centre=[float(x) for x in cen]), f"check_selfintersecting={got}, the small body {'pierces a face of the box' if exp else 'lies well inside the box'}"))
     # reorientation of a closed but disconnected mesh whose parts are interleaved in the face list, with flipped faces
     for sname in ("box", "prism"):
         v, f = solids[sname]
